@@ -1,6 +1,9 @@
 //! Executes cases against the real crate and emits one event per linearization point
 //! (the public call's return, error and panic paths included).
-use crate::mon::{DequeReader, MonReader, MonWriter};
+#[cfg(feature = "custom_writers")]
+use crate::mon::MonWriter;
+#[cfg(feature = "custom_readers")]
+use crate::mon::{DequeReader, MonReader};
 use crate::proj::*;
 use crate::util::*;
 use rl2tp::avp::types::{self, result_code};
@@ -79,11 +82,20 @@ fn with_readers(
     };
     match rdr {
         "slice" | "mon" | "deque" => {
+            let rdr = if cfg!(feature = "custom_readers") { rdr } else { "slice" };
             let (o, calls) = f(rdr, input);
             for (k, v) in pack(rdr, o, calls) {
                 ev.insert(k, v);
             }
         }
+        #[cfg(not(feature = "custom_readers"))]
+        "all" => {
+            let (o, calls) = f("slice", input);
+            for (k, v) in pack("slice", o, calls) {
+                ev.insert(k, v);
+            }
+        }
+        #[cfg(feature = "custom_readers")]
         "all" => {
             let mut outs = Vec::new();
             for name in ["slice", "mon", "deque"] {
@@ -98,6 +110,17 @@ fn with_readers(
 }
 
 /// generic over the reader: run `g` on a reader of the named implementation
+#[cfg(not(feature = "custom_readers"))]
+macro_rules! on_reader {
+    // fallback build (the crate's Reader trait no longer admits the harness's implementations): SliceReader only
+    ($name:expr, $input:expr, $g:expr) => {{
+        let _ = $name;
+        let mut r = SliceReader::from($input);
+        (guarded(|| $g(&mut r)), None)
+    }};
+}
+
+#[cfg(feature = "custom_readers")]
 macro_rules! on_reader {
     ($name:expr, $input:expr, $g:expr) => {{
         match $name {
@@ -416,6 +439,21 @@ fn op_encode(c: &Value, ev: &mut Map<String, Value>) -> Result<(), String> {
                 },
             );
         }
+        #[cfg(not(feature = "custom_writers"))]
+        "mon" | "sparse" => {
+            // fallback build (the crate's Writer trait no longer admits the harness's implementations)
+            let mut w = VecWriter::new();
+            w.data.extend_from_slice(&prefix);
+            let o = guarded(|| write_val(&val, &mut w));
+            ev.insert(
+                "out".into(),
+                match o {
+                    Ok(()) => json!({"t": "ok", "v": bytes_json(&w.data)}),
+                    Err(p) => p,
+                },
+            );
+        }
+        #[cfg(feature = "custom_writers")]
         "mon" => {
             let mut w = MonWriter::with_prefix(&prefix);
             let o = guarded(|| write_val(&val, &mut w));
@@ -428,6 +466,7 @@ fn op_encode(c: &Value, ev: &mut Map<String, Value>) -> Result<(), String> {
             );
             ev.insert("calls".into(), Value::Array(w.calls));
         }
+        #[cfg(feature = "custom_writers")]
         "sparse" => {
             // a writer that behaves as if it already held 2^k + add octets; everything is logged relative to that
             let k = c["vbase_log2"].as_u64().unwrap_or(32) as u32;
